@@ -476,5 +476,60 @@ theorem pipeline_error_carries_request (q : Json) (e : ErrKind) (h : process q =
     applyInputPlugins [process] q = .error (.plugin q e) := by
   simp [applyInputPlugins, applyOps, jsonArrayOp, mapOp, h]
 
+/-! ### a whole query state (`json_array_op` over several queries, as an earlier plugin leaves them) -/
+
+/-- what one query of the state stands for after the plugin ran on it: the elements of an array
+result, or the single result -/
+def standsFor : Json → List Json
+  | .arr sub => sub
+  | v => [v]
+
+theorem flatten1_eq_flatMap (l : List Json) : flatten1 l = l.flatMap standsFor := by
+  induction l with
+  | nil => rfl
+  | cons v r ih => cases v <;> simp [flatten1, standsFor, ih]
+
+theorem flatMap_standsFor_of_no_array (l : List Json) (h : l.all (fun v => !v.isArray) = true) :
+    l.flatMap standsFor = l := by
+  induction l with
+  | nil => rfl
+  | cons v r ih =>
+    simp only [List.all_cons, Bool.and_eq_true] at h
+    cases v <;> simp_all [standsFor, Json.isArray]
+
+theorem mapOp_ok {ε : Type} (op : Json → Except ε Json) (qs rs : List Json)
+    (h : qs.map op = rs.map Except.ok) : mapOp op qs = .ok rs := by
+  induction qs generalizing rs with
+  | nil => cases rs <;> simp_all [mapOp]
+  | cons q r ih =>
+    cases rs with
+    | nil => simp at h
+    | cons a rs =>
+      simp only [List.map_cons, List.cons.injEq] at h
+      simp [mapOp, h.1, ih rs h.2]
+
+/-- **`json_array_op` flattens exactly one level, in order**: when the plugin succeeds on every query
+of the state, the new state is the concatenation, in order, of what each query stands for — the
+generated queries of a query with a grid section, the query itself otherwise; nothing is lost,
+duplicated or left nested, whatever mixture of the two kinds the state holds. -/
+theorem state_op_concatenates {ε : Type} (op : Json → Except ε Json) (qs rs : List Json)
+    (h : qs.map op = rs.map Except.ok) :
+    jsonArrayOp op (.arr qs) = .ok (.arr (rs.flatMap standsFor)) := by
+  simp only [jsonArrayOp, mapOp_ok op qs rs h, flattenInPlace]
+  split
+  · next hall => rw [flatMap_standsFor_of_no_array rs hall]
+  · rw [flatten1_eq_flatMap]
+
+/-- a plain query next to the 2 × 3 example grid query: seven queries, the plain one first -/
+example :
+    jsonArrayOp process (.arr [.obj [("plain", .null)], .obj exQuery])
+      = .ok (.arr (.obj [("plain", .null)] ::
+          expand (swapRemoveKv exQuery gridKey) (axes exSection))) := by
+  have h := state_op_concatenates process [.obj [("plain", .null)], .obj exQuery]
+    [.obj [("plain", .null)], .arr (expand (swapRemoveKv exQuery gridKey) (axes exSection))]
+    (by simp [grid_expansion exQuery_is_grid_query,
+          passthrough_without_grid_section (.obj [("plain", .null)]) (by rfl)])
+  simpa [standsFor] using h
+
 end C17
 end Compass
